@@ -1280,6 +1280,14 @@ func (s *Store) streamBackupDBSnapshot(ctx context.Context, db *DB) (newPos ltx.
 	}()
 
 	hwm, err := s.BackupClient.WriteTx(ctx, db.Name(), pr)
+
+	// The client may return without having read the snapshot to its end (e.g.
+	// on a position mismatch). Close the read side so the snapshot goroutine
+	// stops instead of blocking on the pipe forever with the database's
+	// read locks held, which would keep every writer (and the restore that
+	// follows a mismatch) out for good.
+	_ = pr.CloseWithError(err)
+
 	if err != nil {
 		return ltx.Pos{}, fmt.Errorf("write backup tx snapshot: %w", err)
 	}
